@@ -1277,6 +1277,29 @@ def grd2_retention(P, R, L, rule="GRD-2"):
             e_seq_le += _edges_rel(c, "le", lhs_is_a=True)
         elif snap(lo) and seqk(ro) and not is_last(c.rhs):
             e_seq_le += _edges_rel(c, "le", lhs_is_a=False)
+    # the two drop rules agree at the boundary: a tombstone with `sequence == smallest snapshot` is dropped by the second
+    # rule (`<=`) only if the first rule (`last sequence for this key <= smallest snapshot`) drops the entries it hides as
+    # well — a strict `<` there keeps the hidden Put while its tombstone goes, and the deleted key comes back
+    from ..rules import SWAP as _SW, NEG as _NG
+    def _norm(c, lhs_is_a):
+        """the relation `a REL snapshot` that holds on the edge leading to the drop (a = lhs or rhs)"""
+        op = c.op if lhs_is_a else _SW[c.op]
+        return op
+    rel_hidden, rel_tomb = set(), set()
+    for c in comparisons(cb):
+        lo, ro = c.lhs_origins(), c.rhs_origins()
+        if snap(ro) and is_last(c.lhs):
+            rel_hidden.add(_norm(c, True))
+        elif snap(lo) and is_last(c.rhs):
+            rel_hidden.add(_norm(c, False))
+        elif snap(ro) and seqk(lo) and not is_last(c.lhs):
+            rel_tomb.add(_norm(c, True))
+        elif snap(lo) and seqk(ro) and not is_last(c.rhs):
+            rel_tomb.add(_norm(c, False))
+    incl = lambda rels: any(r in ("le", "gt") for r in rels)      # the test separates `<= snapshot` from `> snapshot`
+    R.check(rule, cb.path + "|drop-rules-agree-at-the-snapshot-boundary", bool(rel_hidden) and bool(rel_tomb) and (incl(rel_hidden) or not incl(rel_tomb)), where(cb),
+            "if a tombstone with `sequence == smallest snapshot` can be dropped, an entry hidden at `last sequence == smallest snapshot` is dropped too "
+            "(both rules compare with `<=`)", "hidden rule tests %s, tombstone rule tests %s" % (sorted(rel_hidden), sorted(rel_tomb)))
     e_delete = variant_edges(P, cb, "key::Operation", "Delete", origin_pred_call(GET_OP))
     e_base = []
     for c in normal_sites(cb, IS_BASE_LEVEL):
